@@ -150,4 +150,45 @@ def _pin(formula, efr, output="pandas", mat="pandas"):
 
 PINNED = [_pin("0 + 2.5:a", False), _pin("0 + 2:A", True), _pin("2:A:a", True), _pin("2:A:a", True, "sparse"), _pin("0 + 2.5:a", False, "numpy", "narwhals")]
 
-SUBS = {"columns": Sub(judge=judge, gen=gen_case, quick=2500, thorough=400_000, min_decided=300)}
+
+
+def enum_suite(tier: str):
+    yield {"run": "repository test-suite with all fxmon probes attached"}
+
+
+def judge_suite(case) -> Outcome:
+    """Run the repository's own tests with every probe attached: a probe that fires there is either too strict or has found
+    something the tests do not assert."""
+    import json
+    import os
+    import subprocess
+    import sys
+    import tempfile
+
+    from .. import REPO_DIR, VERIF_DIR
+
+    out = Outcome()
+    out.sig = "suite"
+    with tempfile.TemporaryDirectory() as td:
+        res = os.path.join(td, "plugin.json")
+        env = dict(os.environ, FXMON_PLUGIN_OUT=res, PYTHONPATH=VERIF_DIR + os.pathsep + REPO_DIR, VERIF_REPO_DIR=REPO_DIR)
+        p = subprocess.run([sys.executable, "-m", "pytest", "-q", "-p", "no:cacheprovider", "-p", "fxmon.pytest_plugin", "--timeout=900"],
+                           cwd=REPO_DIR, env=env, capture_output=True, text=True, timeout=1500)
+        if not os.path.exists(res):
+            out.decided = False
+            out.see("suite_did_not_report")
+            return out
+        d = json.load(open(res))
+    for name, v in d["probes"].items():
+        out.see(f"suite.{name}.evaluations", v.get("evaluations", 0))
+    for b in d["breaches"][:5]:
+        out.fail(b["mech"], f"in repository test {b['test']}: {b['msg']}")
+    tail = [ln for ln in p.stdout.splitlines() if " passed" in ln or " failed" in ln]
+    out.states.append("suite: " + (tail[-1].strip("= ") if tail else "?"))
+    return out
+
+
+SUBS = {
+    "columns": Sub(judge=judge, gen=gen_case, quick=5000, thorough=400_000, min_decided=300),
+    "suite_under_probes": Sub(judge=judge_suite, enum=enum_suite, min_decided=1),
+}
